@@ -13,7 +13,10 @@ Monitors (all at the API boundary; internals are read only for the pruning hash)
  * retries: after a failure/rejection/drop at time t with the service running, the next connect()
    happens exactly at t + policy(c); the count passed to the policy must be a possible number of
    consecutive failures (guards: a drop may or may not be counted as a failure; a stop/start may or
-   may not reset the count - both readings are accepted, then the model follows the service);
+   may not reset the count - both readings are accepted, then the model follows the service; when
+   the service itself is closing a rejected connection, the delay may start at that connection's
+   loss instead of at the rejection; a connection lost while its prepareConnection Deferred is
+   pending counts as a failed attempt with the loss reason);
  * every whenConnected Deferred fires at most once; with the protocol of the connection
    established (and prepared) in that action or still open and current; with the connection failure
    no earlier than its limit and no later than it; with CancelledError only when the service is not
